@@ -144,6 +144,7 @@ class Gen:
             if g.flat:
                 self.w("    vh::touch_flat_ro(v.%s());" % g.name)
             self.w("    %s_ro(v.%s().front(), c);" % (sub, g.name))
+            self.w("    vh::touch_entry_ctor<decltype(v.%s().front())>();" % g.name)
             self.w("    %s_via_cursor(v.%s(), c, vh::same_byte<View, Cur>{});" % (sub, g.name))
         for d in lvl.data:
             tag = self.tag_msg(path + [d.name])
